@@ -365,6 +365,7 @@ def run_module(rec, named, nforests, quick):
             pool = list(roots)
             while len(pool) < (20 if quick else 30):
                 pool.append(forest.mutate(fgen, g, rng.choice(pool), rng))
+            pool += forest.shared_twins(fgen, g, rng)
             pool = [p for p in pool if isinstance(p, g.ParsedObject)]
             case = dict(kind='forest', named=named, seed=rec.seed, shard=rec.shard, forest=k)
             relational(rec, g, mon, pool, case)
@@ -397,8 +398,8 @@ def run_module(rec, named, nforests, quick):
 def run_shard(rec):
     quick = rec.tier == 'quick'
     rec.deadline = time.time() + (300 if quick else 600)
-    run_module(rec, named=False, nforests=12 if quick else 2500, quick=quick)
-    run_module(rec, named=True, nforests=12 if quick else 2500, quick=quick)
+    run_module(rec, named=False, nforests=60 if quick else 2500, quick=quick)
+    run_module(rec, named=True, nforests=60 if quick else 2500, quick=quick)
 
 
 def replay(rec, rep):
